@@ -135,7 +135,7 @@ def gen_history(rng, tier, flavour=None):
     backward = rng.random() < 0.12
     steal_ok = rng.random() < 0.3
     nreq = rng.randrange(1, 12 * nb + 1) if rng.random() < 0.5 else rng.randrange(1, 13)
-    now = 1000
+    now = rng.choice((1000, 1000, 1000, 1000, 1000, 1000, 1000, 1000, 2147483000, 4000000000))   # also across and beyond 2^31
     ages = [timeout, 5, 10, 20, 30, 100]
     started = set()
     for _ in range(nreq):
